@@ -35,6 +35,18 @@ class BoundFn(object):
         self.extra = extra
 
 
+class PyObjV(object):
+    """result of opaque user code used as a condition: its truthiness and whether it IS the False / True singleton"""
+
+    def __init__(self, truthy, isfalse, istrue):
+        self.truthy, self.isfalse, self.istrue = truthy, isfalse, istrue
+
+    @staticmethod
+    def of_bool(b):
+        b = z3.BoolVal(b) if isinstance(b, bool) else b
+        return PyObjV(b, z3.Not(b), b)
+
+
 class NoneV(object):
     def __repr__(self):
         return "NoneV"
@@ -130,6 +142,8 @@ class Executor(object):
             return bool(v)
         if is_z3(v) and v.sort() == z3.BoolSort():
             return v
+        if isinstance(v, PyObjV):
+            return v.truthy
         if isinstance(v, Num):
             return v.ne(0)
         if isinstance(v, DictV):
@@ -321,6 +335,8 @@ class Executor(object):
             v = Num.lift(float(v)) if not isinstance(v, bool) else Num.lift(int(v))
         if t == "bool" and isinstance(v, (int,)) and not isinstance(v, bool):
             v = bool(v)
+        if t == "opaque":
+            return
         if t == "hist" or t == "list" or t == "dict" or t == "opthist":
             self._undecided("store of %s attribute %s" % (t, attr))
         if v is NONEV:
@@ -456,6 +472,15 @@ class Executor(object):
             for g, v in zip(reversed(guards[:-1]), reversed(vals[:-1])):
                 cur = ite(g, Num.lift(v), cur)
             return cur
+        if any(isinstance(v, PyObjV) for v in vals) and all(isinstance(v, (bool, PyObjV)) or (is_z3(v) and v.sort() == z3.BoolSort()) for v in vals):
+            objs = [v if isinstance(v, PyObjV) else PyObjV.of_bool(v) for v in vals]
+            parts = []
+            for fld in ("truthy", "isfalse", "istrue"):
+                cur = getattr(objs[-1], fld)
+                for g, o in zip(reversed(guards[:-1]), reversed(objs[:-1])):
+                    cur = z3.If(g, getattr(o, fld), cur)
+                parts.append(cur)
+            return PyObjV(*parts)
         if all(isinstance(v, bool) or (is_z3(v) and v.sort() == z3.BoolSort()) for v in vals):
             cur = _zb(vals[-1])
             for g, v in zip(reversed(guards[:-1]), reversed(vals[:-1])):
@@ -706,7 +731,7 @@ class Executor(object):
         self._undecided("binary operator %s" % type(op).__name__)
 
     def _is_boolish(self, v):
-        return isinstance(v, bool) or (is_z3(v) and v.sort() == z3.BoolSort())
+        return isinstance(v, (bool, PyObjV)) or (is_z3(v) and v.sort() == z3.BoolSort())
 
     def expr_BoolOp(self, e, st):
         # value-producing and/or: supported for boolean-valued operands
@@ -781,6 +806,15 @@ class Executor(object):
         self._undecided("comparison %s" % type(op).__name__)
 
     def _is(self, a, b, st):
+        if isinstance(b, PyObjV) and not isinstance(a, PyObjV):
+            a, b = b, a
+        if isinstance(a, PyObjV):
+            if b is False:
+                return a.isfalse
+            if b is True:
+                return a.istrue
+            if b is NONEV:
+                return And(Not(a.truthy), Not(a.isfalse)) if False else self._undecided("'is None' on opaque result")
         if a is NONEV and b is NONEV:
             return True
         if b is NONEV:
@@ -969,7 +1003,7 @@ class Executor(object):
 
     # ---- calls
     def expr_Call(self, e, st):
-        if any(isinstance(a, ast.Starred) for a in e.args) or any(k.arg is None for k in e.keywords):
+        if any(isinstance(a, ast.Starred) for a in e.args):
             self._undecided("star-args call")
         # list-comprehension style handled elsewhere
         out = []
@@ -987,7 +1021,7 @@ class Executor(object):
                     out.append((s1, vals))
                     continue
                 pos = vals[: len(e.args)]
-                kw = {k.arg: v for k, v in zip(e.keywords, vals[len(e.args) :])}
+                kw = {(k.arg if k.arg is not None else "**"): v for k, v in zip(e.keywords, vals[len(e.args) :])}
                 out.extend(self.call_value(s1, f, pos, kw))
         return out
 
@@ -1204,6 +1238,9 @@ class Executor(object):
 
     def call_function(self, st, fi, recv, pos, kw, exact=False, via_property=False, counted=False):
         q = fi.qualname
+        if (fi.node.args.kwarg or fi.node.args.vararg or "**" in kw) and q in self.contracts and getattr(self.contracts[q], "raw_args", False):
+            self.stats.contracts_used.add(q)
+            return self.contracts[q].apply(self, st, recv, list(pos) + [kw], exact=exact)
         cc = getattr(self, "count_calls", None)
         if cc and recv is not None and fi.name in cc and not counted and len(self.cur_func) == 1:
             fld = cc[fi.name]
@@ -1305,10 +1342,28 @@ class Executor(object):
         return res
 
     def expr_ListComp(self, e, st):
-        h = getattr(self, "ext_listcomp", None)
-        if h:
-            return h(e, st)
-        self._undecided("list comprehension")
+        """side-effecting comprehension used as a statement: [f(c) for c in xs if p(c)]  ==  for c in xs: if p(c): f(c)
+        (the resulting list is not modelled; only supported where the value is discarded)"""
+        if len(e.generators) != 1 or e.generators[0].is_async:
+            self._undecided("nested comprehension")
+        g = e.generators[0]
+        body = [ast.Expr(value=e.elt)]
+        for cond in reversed(g.ifs):
+            body = [ast.If(test=cond, body=body, orelse=[])]
+        loop = ast.For(target=g.target, iter=g.iter, body=body, orelse=[])
+        ast.copy_location(loop, e)
+        ast.fix_missing_locations(loop)
+        k = self.loop_counter[-1].get(id(e))
+        self.loop_counter[-1][id(loop)] = k
+        out = []
+        for (s, oc) in self.stmt_For(loop, st):
+            if oc.kind == "normal":
+                out.append((s, _ListResult()))
+            elif oc.kind == "raise":
+                out.append((s, _Raised(oc.exc)))
+            else:
+                self._undecided("control flow out of a comprehension")
+        return out
 
     def expr_Dict(self, e, st):
         if not e.keys:
@@ -1339,6 +1394,10 @@ class _Raised(object):
 
 class _SliceAll(object):
     pass
+
+
+class _ListResult(object):
+    """value of a side-effecting comprehension (never inspected)"""
 
 
 class _EmptyDict(object):
